@@ -275,6 +275,15 @@ def targets(tier='quick'):
     for kind in ('float', 'interval'):
         T.append(Target('shift/parse-times[%s]' % kind, 'system_dynamics._parse_times', scen_parse(kind), post_parse, R, PROP, invoke=invoke_parse, replay=mk_replay('parse')))
     T.append(lemma_field_sequence())
+    # MeanFieldTempo evaluates the user's field equation of motion (Heun update AND the slope handed to the propagators) at the
+    # ABSOLUTE time start_time + step dt: contracts of C09, kept here as far as they are about the time origin
+    from . import c09
+    RF = Registry()
+    RF.models['MFS.field_eom'] = c09.m_field_eom
+    rpf = lambda ob: {'func': 'mean_field_shift', 'inputs': {'obligation': ob['name']}}
+    T.append(Target('shift/mf-heun-at-step', 'tempo.MeanFieldTempo._compute_field', c09.scen_compute_field, c09.post_compute_field, RF, PROP, replay=rpf))
+    T.append(Target('shift/mf-derivative-at-step', 'tempo.MeanFieldTempo._compute_field_derivative', c09.scen_field_derivative,
+                    c09.post_field_derivative, RF, PROP, replay=rpf))
     # multi-time correlations: the dynamics inside are computed with the caller's start time (and dt): contract of C07, kept
     # here as far as it is about the time origin
     from . import c07
